@@ -47,7 +47,8 @@ def run(ctx):
     if variant != "fixed":
         for cfg in cfgs + ["TraceLogJson.cfg"]:
             f = ctx.specdir() + "/" + cfg
-            open(f, "w").write(open(f).read().replace('L1Variant = "fixed"', 'L1Variant = "%s"' % variant))
+            txt = open(f).read().replace('L1Variant = "fixed"', 'L1Variant = "%s"' % variant)
+            open(f, "w").write(txt)
     ctx.set("layer1_variant", variant)
     cases, seen = [], set()
     for cfg in cfgs:
